@@ -8,12 +8,26 @@ spec -> code : for every basis of the universe TLC decides, per core strategy, w
                minimal presentation (memoisation across presentations), and under all eight symmetries; the
                insertion-encoding and finitely-many-simples strategies are compared with the class tests; the
                quick search must be the slow search minus the slow strategies.
+
+Hardening round: redundant (non-minimal) presentations are states of the machine themselves, so their report is
+decided exactly by TLC (not only "a subset of the minimal presentation's"); bases with 4-5 elements and elements of
+length 6; every question about one class (its minimal and its redundant presentations, their symmetric images, as
+list / tuple / set / frozenset / dict keys / Basis, reordered, with repetitions, by keyword) is asked in one process
+in a shuffled order, so that an answer remembered for a related question shows; all strategy objects of one basis
+alive at once and asked in every order, several times; the same list object searched twice; the whole reported set
+(insertion encoding included) compared between symmetric images; a few cold starts (a fresh interpreter whose very
+first question is a redundant presentation or a symmetric image).
 """
 import itertools
 import json
+import os
+import subprocess
+import sys
+import time
 
-from permuta import Av, Perm
-from permuta.enumeration_strategies import all_enumeration_strategies, find_strategies
+from permuta import Av, Basis, Perm
+from permuta.enumeration_strategies import (all_enumeration_strategies, fast_enumeration_strategies, find_strategies,
+                                            long_enumeration_strategies)
 from permuta.enumeration_strategies.core_strategies import core_strategies
 from permuta.enumeration_strategies.finitely_many_simples import FinitelyManySimplesStrategy
 from permuta.enumeration_strategies.insertion_encodable import InsertionEncodingStrategy
@@ -21,6 +35,7 @@ from permuta.permutils import is_insertion_encodable
 from permuta.permutils.pin_words import PinWords
 
 from harness import tlc, util
+from harness.core import REPO
 
 NAME = {"RuCuCoreStrategy": "RuCu", "RdCdCoreStrategy": "RdCd", "RuCuRdCdCoreStrategy": "RuCuRdCd",
         "RuCuCdCoreStrategy": "RuCuCd", "RdCdCuCoreStrategy": "RdCdCu", "RdCuCoreStrategy": "RdCu",
@@ -28,6 +43,7 @@ NAME = {"RuCuCoreStrategy": "RuCu", "RdCdCoreStrategy": "RdCd", "RuCuRdCdCoreStr
 SITE = "find_strategies / CoreStrategy.applies on a basis with an element that is empty after stripping"
 DEV = "EmptyAfterStrip_Asserts"
 RU, CU, RD, CD = (1, 2, 0, 3), (2, 0, 1, 3), (1, 3, 0, 2), (2, 0, 3, 1)
+SLOW_NAMES = {c.__name__ for c in long_enumeration_strategies}
 
 
 def contains(q, p):
@@ -36,12 +52,21 @@ def contains(q, p):
                for c in itertools.combinations(range(len(q)), k))
 
 
+def minimal(b):
+    return sorted({p for p in b if not any(q != p and contains(p, q) for q in b)})
+
+
+NEEDS = ([RU, CU], [RD, CD], [RD, CU], [RU, CU, CD], [RD, CD, CU], [RD, (1, 0, 2, 3)], [RU, (1, 0, 3, 2)])
+
+
 def universe(rnd, quick):
+    """-> (minimal bases, redundant presentations); a redundant presentation is a minimal basis of the first list
+    plus one or two elements that contain one of its elements."""
     s = {n: util.perms_of(n) for n in range(1, 6)}
     out = [[RU, CU], [RD, CD], [RU, CU, RD, CD], [RU, CU, CD], [RD, CD, CU], [RD, CU], [RD, (1, 0, 2, 3)], [RU, (1, 0, 3, 2)],
            [RU, CU, (0, 2, 1, 3, 4)], [RU, CU, (0, 3, 2, 1)], [RD, CD, (0, 2, 3, 1)], [RD, CD, (0, 1, 3, 2)],
            [(0, 1, 2)], [(0, 2, 1)], [(1, 2, 0), (2, 0, 1)], [(0, 1)], [(0,)], [(0,), (1, 0)]]
-    for need in ([RU, CU], [RD, CD], [RD, CU], [RU, CU, CD], [RD, CD, CU], [RD, (1, 0, 2, 3)], [RU, (1, 0, 3, 2)]):
+    for need in NEEDS:
         for _ in range(3 if quick else 12):
             ext = rnd.choice(s[4] + s[5])
             if not any(contains(ext, x) for x in need):
@@ -49,28 +74,126 @@ def universe(rnd, quick):
     for _ in range(8 if quick else 80):
         k = rnd.randint(1, 3)
         out.append([rnd.choice(s[rnd.choice([2, 3, 3, 4])]) for _ in range(k)])
+    # larger and structurally special: elements of length 5-6 of the form 1 (+) r where whether r decomposes hinges on
+    # its first or last entry (r = s (-) 1, s (+) 1, 1 (-) s, 1 (+) s), elements ending with their maximum, 4-5 elements
+    def special(k):
+        sg = util.rand_perm(rnd, k - 2)
+        up = tuple(v + 1 for v in sg)
+        form = rnd.randrange(7)
+        if form == 0:
+            tail = up + (0,)                      # s (-) 1
+        elif form == 1:
+            tail = sg + (k - 2,)                  # s (+) 1
+        elif form == 2:
+            tail = (k - 2,) + sg                  # 1 (-) s
+        elif form == 3:
+            tail = (0,) + up                      # 1 (+) s
+        elif form == 4:
+            return (0,) + up + (k - 1,)           # (1 (+) s) (+) 1
+        elif form == 5:
+            return util.rand_perm(rnd, k)
+        else:
+            tail = util.rand_perm(rnd, k - 1)
+        return (0,) + tuple(v + 1 for v in tail)
+    for need in NEEDS:
+        for _ in range(2 if quick else 6):
+            exts = []
+            for _ in range(rnd.choice([1, 2, 2])):
+                ext = special(rnd.choice([5, 6, 6]))
+                if not any(contains(ext, x) for x in need):
+                    exts.append(ext)
+            if exts:
+                out.append(list(need) + exts)
     res = []
     for b in out:
-        m = sorted({p for p in b if not any(q != p and contains(p, q) for q in b)})
+        m = minimal(b)
         if m and m not in res:
             res.append(m)
-    return res
+    # redundant presentations
+    raw = []
+    cand = [b for b in res if max(map(len, b)) <= 5 and (1,) != tuple(map(len, b))]
+    picks = cand[:12] + rnd.sample(cand[12:], min(len(cand) - 12, 4 if quick else 30)) if len(cand) > 12 else cand
+    for b in picks:
+        for _ in range(2 if quick else 4):
+            extras = set()
+            for _ in range(rnd.choice([1, 1, 2])):
+                base = rnd.choice(b)
+                r = rnd.random()
+                if r < 0.5:          # 1 (+) base: starts with its minimum
+                    e = (0,) + tuple(v + 1 for v in base)
+                elif r < 0.7:        # base (+) 1
+                    e = tuple(base) + (len(base),)
+                else:                # a point inserted anywhere
+                    i, v = rnd.randint(0, len(base)), rnd.randint(0, len(base))
+                    e = tuple(x + (x >= v) for x in base[:i]) + (v,) + tuple(x + (x >= v) for x in base[i:])
+                if e not in b:
+                    extras.add(e)
+            r = sorted(set(b) | extras)
+            if extras and minimal(r) == sorted(b) and r not in raw and r not in res:
+                raw.append(r)
+    return res, raw
 
 
 def report_of(strats):
     return sorted(type(x).__name__ for x in strats)
 
 
+def containers(rnd, perms, is_minimal):
+    """The same finite set handed over in different containers / orders (name, thunk making the argument)."""
+    B = [Perm(p) for p in perms]
+    sh = list(B)
+    rnd.shuffle(sh)
+    out = [("list as given", lambda: list(B)), ("list reversed", lambda: list(reversed(B))), ("list shuffled", lambda: list(sh)),
+           ("list with a repetition", lambda: list(B) + B[:1]), ("list with everything twice", lambda: sh + list(B)),
+           ("tuple", lambda: tuple(sh)), ("set", lambda: set(B)), ("frozenset", lambda: frozenset(B)), ("dict keys", lambda: dict.fromkeys(sh))]
+    if is_minimal:
+        out.append(("Basis", lambda: Basis(*sh)))
+        out.append(("basis of Av", lambda: Av(Basis(*B)).basis))
+    return out
+
+
+COLD = r"""
+import json, sys
+from permuta import Perm
+from permuta.enumeration_strategies import find_strategies
+from permuta.enumeration_strategies.core_strategies import core_strategies
+qs = json.loads(sys.argv[1])
+out = []
+for q in qs:
+    B = [Perm(p) for p in q["perms"]]
+    try:
+        if q["how"] == "find":
+            out.append(sorted(type(x).__name__ for x in find_strategies(B, False)))
+        else:
+            out.append(sorted(c.__name__ for c in reversed(core_strategies) if c(B).applies()))
+    except Exception as e:
+        out.append("raise " + type(e).__name__)
+print(json.dumps(out))
+"""
+
+
+def cold_start(queries):
+    env = dict(os.environ, PYTHONPATH=REPO + os.pathsep + os.environ.get("PYTHONPATH", ""))
+    p = subprocess.run([sys.executable, "-c", COLD, json.dumps(queries)], capture_output=True, text=True, timeout=600, env=env, check=False)
+    if p.returncode != 0:
+        raise tlc.MachineryFailure("C19: cold-start interpreter failed: " + p.stderr[-400:])
+    return json.loads(p.stdout.strip().splitlines()[-1])
+
+
 def run(ctx):
     quick = ctx.tier == "quick"
     rnd = util.rng(ctx, 19)
-    uni = universe(rnd, quick)
+    t0 = time.time()
+    phases = {}
+    uni, raw = universe(rnd, quick)
+    entries = [(b, True) for b in uni] + [(r, False) for r in raw]
     jobs = [("LibSanity_Simples", util.cfg(init="Init", next_="Next"), {"workers": 2, "timeout": 1800})]
-    per = 3
-    for i in range(0, len(uni), per):
-        inp = "{" + ", ".join("{" + ", ".join(tlc.tla(list(p)) for p in b) + "}" for b in uni[i:i + per]) + "}"
+    per = 4
+    for i in range(0, len(entries), per):
+        inp = "{" + ", ".join("{" + ", ".join(tlc.tla(list(p)) for p in b) + "}" for b, _ in entries[i:i + per]) + "}"
         mod = util.mc_module("MC_C19", "C19_Strategies", {"InputsDef": inp})
-        c = util.cfg(init="Init", next_="Stutter", invariants=["SymmetryInvariant", "AddingNeededKeeps", "EmitState"], constants={"Inputs": ("<-", "InputsDef")})
+        c = util.cfg(init="Init", next_="Stutter", invariants=["SymmetryInvariant", "AddingNeededKeeps", "RedundantNeverGrows", "ImagesOfImages", "EmitState"],
+                     constants={"Inputs": ("<-", "InputsDef")})
         jobs.append(("MC_C19", c, {"files": {"MC_C19.tla": mod}, "timeout": 3000}))
     results = tlc.run_many(jobs, parallel=16)
     ctx.add_tlc(results[0], "LibSanity_Simples")
@@ -79,81 +202,182 @@ def run(ctx):
         ctx.add_tlc(r, "strategy hypotheses")
         for rec in r.records:
             recs[tuple(sorted(map(tuple, rec["basis"])))] = rec
-    if len(recs) != len(uni):
-        raise tlc.MachineryFailure("C19: %d records for %d bases" % (len(recs), len(uni)))
-    applied = set()
-    for b in uni:
+    if len(recs) != len(entries):
+        raise tlc.MachineryFailure("C19: %d records for %d bases" % (len(recs), len(entries)))
+    for b, is_min in entries:
         rec = recs[tuple(sorted(b))]
-        want_core = set(rec["report"])
-        undefined = set(rec["undefined"])
-        applied |= want_core
-        base = {"kind": "basis", "basis": [list(p) for p in b]}
-        ctx.case(tuple(sorted(b)), nontrivial=bool(want_core))
-        B = [Perm(p) for p in b]
-        # a redundant element: contains some basis element, so the class is the same
-        extra = None
-        for cand in util.perms_of(max(map(len, b)) + 1):
-            if contains(cand, b[0]):
-                extra = cand
-        presentations = [("as given", list(B)), ("reversed", list(reversed(B))), ("with a repetition", list(B) + B[:1])]
-        if extra is not None:
-            presentations.insert(0, ("redundant element first", [Perm(extra)] + list(B)))   # queried before the minimal one
-            presentations.append(("redundant element last", list(B) + [Perm(extra)]))
-        for sym in rec["syms"][: (3 if quick else 8)]:
-            presentations.append(("symmetric image", [Perm(p) for p in sym]))
-        for pname, pres in presentations:
-            case = dict(base, presentation=pname)
-            slow = pname in ("as given", "reversed") or (pname == "symmetric image" and pres is presentations[-1][1])
-            st, got = util.call(find_strategies, pres, slow)
+        if sorted(map(tuple, rec["minimal"])) != minimal(b) or (is_min != (minimal(b) == sorted(b))):
+            raise tlc.MachineryFailure("C19: minimal part of %s: model %s, harness %s" % (b, rec["minimal"], minimal(b)))
+    phases["TLC"] = round(time.time() - t0, 1)
+    t0 = time.time()
+
+    # ---- the questions, grouped by class, shuffled inside a group -----------------------------------------------
+    known = ctx.known_entry(SITE, DEV)
+    groups = {}
+    for b, is_min in entries:
+        groups.setdefault(tuple(minimal(b)), []).append((b, is_min))
+    applied = set()
+    nq = 0
+    shrunk = 0
+    for mkey, members in groups.items():
+        questions = []
+        for b, is_min in members:
+            rec = recs[tuple(sorted(b))]
+            want = set(rec["report"])
+            applied |= want
+            if not is_min and want != set(recs[mkey]["report"]):
+                shrunk += 1
+            ctx.case(tuple(sorted(b)), nontrivial=bool(want))
+            if len(ctx.samples) < 3 and want:
+                ctx.sample({"basis": b, "core_strategies_by_model": sorted(want), "minimal": is_min})
+            forms = containers(rnd, b, is_min)
+            keep = forms[:2] + rnd.sample(forms[2:], 3 if quick else len(forms) - 2)
+            for fname, mk in keep:
+                questions.append((b, is_min, rec, fname, mk, False))
+            syms = [s for s in rec["syms"] if sorted(map(tuple, s)) != sorted(b)]
+            rnd.shuffle(syms)
+            for sym in syms[: (3 if quick else 8)]:
+                sp = [Perm(p) for p in sym]
+                rnd.shuffle(sp)
+                questions.append((b, is_min, rec, "symmetric image", (lambda sp=sp: list(sp)), True))
+        rnd.shuffle(questions)
+        small = sum(len(p) for p in mkey) <= 14 and max(map(len, mkey)) <= 5
+        fast_sets, simples, nslow = {}, {}, {}
+        for qi, (b, is_min, rec, fname, mk, is_sym) in enumerate(questions):
+            nq += 1
+            want = set(rec["report"])
+            undefined = set(rec["undefined"])
+            case = {"kind": "basis", "basis": [list(p) for p in b], "presentation": fname, "asked_as_number": qi + 1,
+                    "of_the_class": [list(p) for p in mkey]}
+            key = tuple(sorted(b))
+            slow = small and fname in ("list as given", "list reversed", "tuple") and sum(len(p) for p in b) <= 14 and nslow.get(key, 0) < (2 if is_min else (0 if quick else 1))
+            nslow[key] = nslow.get(key, 0) + slow
+            arg = mk()
+            if is_sym:
+                case["image"] = [list(p) for p in arg]
+            if qi % 3 == 0:
+                st, got = util.call(find_strategies, basis=arg, long_runnning=slow)
+            elif slow:
+                st, got = util.call(find_strategies, arg) if qi % 3 == 1 else util.call(find_strategies, arg, True)
+            else:
+                st, got = util.call(find_strategies, arg, False)
             if st == "raise":
-                e = ctx.known_entry(SITE, DEV)
-                if undefined and "AssertionError" in str(got) and e is not None:
-                    ctx.known_finding(e, {"basis": [list(p) for p in b], "presentation": pname})
+                if undefined and "AssertionError" in str(got) and known is not None:
+                    ctx.known_finding(known, {"basis": [list(p) for p in b], "presentation": fname})
                     continue
-                ctx.violation(case, "NoException", sorted(want_core), got)
+                ctx.violation(case, "NoException", sorted(want), got)
                 continue
             names = report_of(got)
             core_got = {NAME[n] for n in names if n in NAME}
-            # a redundant element must itself have the prescribed shape, so the report may legitimately
-            # shrink for presentations with extra elements; it can never grow beyond the minimal basis's report
-            if "redundant" in pname:
-                if not core_got <= want_core:
-                    ctx.violation(case, "CoreStrategyHypothesis", "subset of %s" % sorted(want_core), sorted(core_got))
-            elif core_got != want_core:
-                ctx.violation(case, "CoreStrategyHypothesis", sorted(want_core), sorted(core_got))
+            if core_got != want:
+                ctx.violation(case, "CoreStrategyHypothesis", sorted(want), sorted(core_got))
+            # the whole quickly found set is the same for every presentation and every symmetric image of this basis
+            fast = sorted(set(names) - SLOW_NAMES)
+            if key not in fast_sets:
+                fast_sets[key] = (fast, fname)
+            elif fast_sets[key][0] != fast:
+                ctx.violation(case, "ReportInvariantUnderPresentationAndSymmetry", "%s (asked as %s)" % fast_sets[key], fast)
             if slow:
-                st2, fast = util.call(find_strategies, pres, False)
-                if st2 == "ok" and set(report_of(fast)) != set(names) - {"FinitelyManySimplesStrategy"}:
-                    ctx.violation(case, "QuickIsSlowMinusSlowStrategies", sorted(set(names) - {"FinitelyManySimplesStrategy"}), report_of(fast))
-            if pname == "as given":
-                for cls in core_strategies:
-                    obj = cls(B)
-                    for ask in (1, 2, 3):                 # the same strategy object asked repeatedly
-                        st3, ap = util.call(obj.applies)
-                        if st3 == "ok" and ap != (NAME[cls.__name__] in want_core):
-                            ctx.violation(dict(case, strategy=cls.__name__, asked=ask), "CoreStrategyHypothesis", NAME[cls.__name__] in want_core, ap)
-                            break
-                for obj in got:                           # the objects find_strategies returned still say "applies"
-                    st3, ap = util.call(obj.applies)
-                    if st3 == "ok" and ap is not True:
-                        ctx.violation(dict(case, strategy=type(obj).__name__, asked="reported object asked again"), "CoreStrategyHypothesis", True, ap)
+                st2, quick_found = util.call(find_strategies, mk(), False)
+                if st2 == "ok" and set(report_of(quick_found)) != set(names) - SLOW_NAMES:
+                    ctx.violation(case, "QuickIsSlowMinusSlowStrategies", sorted(set(names) - SLOW_NAMES), report_of(quick_found))
+                if key not in simples:
+                    simples[key] = PinWords.has_finite_simples([Perm(p) for p in b])
+                fs = simples[key]
+                if ("FinitelyManySimplesStrategy" in names) != fs:
+                    ctx.violation(dict(case, strategy="FinitelyManySimplesStrategy"), "SimplesStrategyIffClassTest", fs, not fs)
+            if fname == "list as given":
                 ie = any(is_insertion_encodable([Perm(p) for p in sym]) for sym in rec["syms"])
                 if ("InsertionEncodingStrategy" in names) != ie:
                     ctx.violation(dict(case, strategy="InsertionEncodingStrategy"), "InsertionEncodingStrategyIffClassTest", ie, not ie)
-                fs = PinWords.has_finite_simples(list(B))
-                if ("FinitelyManySimplesStrategy" in names) != fs:
-                    ctx.violation(dict(case, strategy="FinitelyManySimplesStrategy"), "SimplesStrategyIffClassTest", fs, not fs)
-        if len(ctx.samples) < 3 and want_core:
-            ctx.sample({"basis": b, "core_strategies_by_model": sorted(want_core)})
+            for obj in got:                           # the objects find_strategies returned still say "applies"
+                if type(obj).__name__ in SLOW_NAMES:
+                    continue
+                st3, ap = util.call(obj.applies)
+                if st3 == "ok" and ap is not True:
+                    ctx.violation(dict(case, strategy=type(obj).__name__, asked="reported object asked again"), "CoreStrategyHypothesis", True, ap)
+                st4, ref = util.call(type(obj).reference)
+                if st4 != "ok" or not isinstance(ref, str) or not ref:
+                    ctx.drift("%s.reference() gives %r" % (type(obj).__name__, ref))
+            if fname in ("list as given", "symmetric image", "set") and not undefined:
+                strategy_objects(ctx, rnd, case, arg, want, full=(fname == "list as given"))
+            if fname == "list shuffled":              # the same list object searched twice; the list is the caller's
+                before = list(arg)
+                a1 = util.call(find_strategies, arg, False)
+                a2 = util.call(find_strategies, arg, False)
+                if a1[0] == "ok" and a2[0] == "ok" and not (report_of(a1[1]) == report_of(a2[1]) == fast):
+                    ctx.violation(dict(case, asked="the same list object, twice more"), "ReportInvariantUnderPresentationAndSymmetry", fast,
+                                  [report_of(a1[1]), report_of(a2[1])])
+                if list(arg) != before:
+                    ctx.drift("find_strategies changed the caller's list %s into %s" % (before, list(arg)))
+    phases["questions"] = round(time.time() - t0, 1)
+    t0 = time.time()
+
+    # ---- cold starts: the first question of a fresh interpreter ------------------------------------------------
+    pool = [(b, recs[tuple(sorted(b))]) for b, is_min in entries if not set(recs[tuple(sorted(b))]["undefined"])]
+    interesting = [x for x in pool if x[1]["report"]] or pool
+    firsts = [x for x in interesting if minimal(x[0]) != sorted(x[0])] or interesting
+    ncold = 0
+    for k in range(2 if quick else 10):
+        b, rec = rnd.choice(firsts if k % 2 == 0 else interesting)
+        sym = rnd.choice(rec["syms"])
+        mrec = recs[tuple(minimal(b))]
+        qs = [{"perms": [list(p) for p in (sym if k % 2 else b)], "how": "find" if k % 4 < 2 else "classes", "want": rec["report"]},
+              {"perms": [list(p) for p in mrec["basis"]], "how": "find", "want": mrec["report"]},
+              {"perms": [list(p) for p in b], "how": "classes", "want": rec["report"]}]
+        outs = cold_start([{"perms": q["perms"], "how": q["how"]} for q in qs])
+        for i, (q, o) in enumerate(zip(qs, outs)):
+            ncold += 1
+            ctx.case(("cold", k, i), nontrivial=bool(q["want"]))
+            case = {"kind": "cold start", "question_number": i + 1, "perms": q["perms"], "how": q["how"]}
+            if isinstance(o, str):
+                ctx.violation(case, "NoException", sorted(q["want"]), o)
+            elif {NAME[n] for n in o if n in NAME} != set(q["want"]):
+                ctx.violation(case, "CoreStrategyHypothesis", sorted(q["want"]), sorted(NAME[n] for n in o if n in NAME))
+    phases["cold starts"] = round(time.time() - t0, 1)
     if len(applied) < 6:
         raise tlc.MachineryFailure("C19: only %s ever apply in the universe" % sorted(applied))
+    if raw and not shrunk:
+        raise tlc.MachineryFailure("C19: no redundant presentation loses a strategy of its minimal presentation (universe too tame)")
     ctx.exhaustive = True
-    ctx.traces += len(uni)
+    ctx.traces += len(entries)
     ctx.note("strategies_exercised", sorted(applied))
-    ctx.rule = ("per basis the model decides every core strategy's hypothesis over the eight symmetric images; find_strategies "
-                "is compared for the basis as given, reversed, repeated, with a redundant element (asked before "
-                "and after the minimal presentation) and for symmetric images; non-trivial = at least one core strategy applies")
+    ctx.note("phase_seconds", phases)
+    ctx.note("universe", {"minimal bases": len(uni), "redundant presentations": len(raw), "redundant ones that lose a strategy": shrunk,
+                          "questions asked": nq, "cold-start questions": ncold, "longest element": max(len(p) for b, _ in entries for p in b),
+                          "most elements": max(len(b) for b, _ in entries)})
+    ctx.rule = ("per basis (minimal or redundant presentation) the model decides every core strategy's hypothesis over the eight "
+                "symmetric images; find_strategies is compared exactly for every presentation (orders, repetitions, containers, "
+                "keywords) and symmetric image, all questions about one class asked in one process in shuffled order; every strategy "
+                "class asked with all objects alive at once, in every order; non-trivial = at least one core strategy applies")
     ctx.assumptions.append("Rd2134 / Ru2143 extension conditions are transcriptions of the documented condition (oracle: transcribed)")
+
+
+def strategy_objects(ctx, rnd, case, arg, want, full):
+    """All strategy objects of one basis alive at once, asked in shuffled orders, each several times."""
+    classes = list(core_strategies)
+    rnd.shuffle(classes)
+    objs = []
+    for cls in classes:
+        st, obj = util.call(cls, arg)
+        if st == "ok":
+            objs.append(obj)
+    for rnd_no in range(3 if full else 2):
+        order = list(objs)
+        rnd.shuffle(order)
+        for obj in order:
+            nm = type(obj).__name__
+            st, ap = util.call(obj.applies)
+            if st == "ok" and bool(ap) != (NAME[nm] in want):
+                ctx.violation(dict(case, strategy=nm, asked="all objects alive, round %d" % (rnd_no + 1)), "CoreStrategyHypothesis", NAME[nm] in want, ap)
+                return
+    if full:
+        # a second object of the same class for the same basis, asked while the first is alive
+        for obj in objs[:3]:
+            st, ap = util.call(type(obj)(list(arg)).applies)
+            if st == "ok" and bool(ap) != (NAME[type(obj).__name__] in want):
+                ctx.violation(dict(case, strategy=type(obj).__name__, asked="second object of the class"), "CoreStrategyHypothesis",
+                              NAME[type(obj).__name__] in want, ap)
 
 
 def replay(ctx, path):
